@@ -275,6 +275,33 @@ def named_captures(rng):
     return dict(cls="OpA", classlevel=False, extractor={"kind": "none"}, body=c)
 
 
+def bulk_arguments(rng, k):
+    """Round 7: one input called with a whole table / document / id list - captured arguments that encode to several KB (the
+    key is several KB long) - twice with arguments that differ only near the END (far beyond any prefix), next to a call
+    with short arguments; positional, keyword, and selected by capture_args.  Each call has its own answer."""
+    static = k % 2 == 0
+    lo = 0 if static else 1
+    n = rng.randrange(150, 260)
+    shapes = [lambda tag: pv.lst([pv.i(1000 + 7 * i) for i in range(n)] + [pv.i(tag)]),
+              lambda tag: pv.lst([pv.s("stop-%04d" % i) for i in range(n)] + [pv.s("t%d" % tag)]),
+              lambda tag: pv.dct([("k%03d" % i, pv.i(i)) for i in range(n // 2)] + [("tag", pv.i(tag))]),
+              lambda tag: pv.s("row;" * 700 + str(tag))]
+    mk = shapes[k % len(shapes)]
+    by_kw = (k // 2) % 3 == 1
+    cap = [[lo, "table"], [None, "opt"]] if (k // 2) % 3 == 2 else None
+    cf = _icfg(["db.fetch_rows", "bulk.load"][k % 2], static, ["none", "wrap"][(k // 4) % 2], cap=cap)
+    calls = [mk(1), mk(2), pv.lst([pv.i(1)]), mk(1)]      # (the last call repeats the first: same key, same answer)
+    c = {"k": "ret", "e": {"var": 1}}
+    send = {"k": "out", "cfg": dict(alias="send", static=True, handler="none", fail=True, default=pv.none()),
+            "body": {"k": "ret", "e": {"lit": pv.none()}}, "args": [{"var": i} for i in range(len(calls))], "kwargs": [], "next": c}
+    c = send
+    for i, v in reversed(list(enumerate(calls))):
+        site = {"k": "in", "cfg": rd.clean(cf), "body": {"k": "ret", "e": {"lit": pv.i(700 + (0 if i == 3 else i))}}, "next": c}
+        site["args"], site["kwargs"] = ([], [["table", {"lit": v}]]) if by_kw else ([{"lit": v}, {"lit": pv.s("x")}], [])
+        c = site
+    return dict(cls="OpA", classlevel=False, extractor={"kind": "none"}, body=c)
+
+
 XPROC_SEEDS = ["1", "2", "3"]
 
 
@@ -298,6 +325,9 @@ def generate(rng, tier):
         cases.append(dict(draws=[], runs=runs, cassette=["memory", "file", "s3"][k % 3], unshare=True))
     xrng = random.Random(frng.random())
     xp = [xproc_case(named_captures(xrng)) for _ in range(6 if tier == "quick" else 24)]
+    brng = random.Random(20260929)          # (own fixed stream: the same bulk cases in every tier and for every seed)
+    bulk = [bulk_arguments(brng, k) for k in range(4 if tier == "quick" else 12)]
+    xp += [dict(xproc_case(op), bulk=True) for op in bulk]
     for _ in range(4 if tier == "quick" else 24):        # programs of the main stream, through separate processes
         op = rd.rand_opdef(xrng, W, budget=xrng.choice([5, 9]), cls="OpA")
         functionalise(xrng, op["body"], {})
@@ -334,6 +364,7 @@ def generate(rng, tier):
             runs.append(dict(kind="play", target=0, pf={"kind": "op", "op": rd.clean(op)}, enabled=rng.random() < 0.5))
         cases.append(dict(draws=[], runs=runs, cassette=["memory", "file", "s3"][i % 3], unshare=True))
     cases += mutation_probes()
+    cases += shared_probes()
     # the cross-process cases start several interpreters each: spread them over the driver's (contiguous) shards
     step = max(1, len(cases) // len(xp))
     for j, c in enumerate(xp):
@@ -407,6 +438,36 @@ def mutation_probes():
     return out
 
 
+def shared_probes():
+    """Round 7: values with INTERNAL SHARING that the serializer round-trips correctly - one plain list / dict (no object holding
+    a container: that is the region of known finding F07c) reachable twice inside one intercepted value: [x, x], two dict
+    entries sharing a row, (x, x), a row shared across nesting levels.  The operation reads the value twice, sends it, returns
+    it; copy-on-interception on and off; three cassettes; static / instance inputs; handlers.  Same runner and predicate as the
+    mutation probes (the value handed to the operation at every read, the outputs, the result).  Deterministic."""
+    ref = {"t": "ref"}
+    let = lambda x, body: {"t": "let", "x": x, "in": body}      # noqa: E731
+    shapes = [
+        ("list-twice-in-list", let(_L([_I(1), _I(2)]), _L([ref, ref])), [([0], "append", _I(9))]),
+        ("row-under-two-dict-keys", let(_D([("fare", _I(5)), ("zone", _S("a"))]), _D([("mon", ref), ("tue", ref), ("n", _I(2))])),
+         [(["mon"], "setitem", _pair("fare", _I(7)))]),
+        ("list-twice-in-tuple", let(_L([_S("r")]), _T([ref, ref, _I(0)])), [([1], "extend", _L([_S("s"), _S("t")]))]),
+        ("dict-shared-across-levels", let(_D([("k", _L([_I(1)]))]), _L([_D([("a", ref)]), _L([ref]), _I(3)])),
+         [([0, "a", "k"], "append", _I(2)), ([1, 0], "setitem", _pair("k2", _I(4)))]),
+        ("list-three-times", let(_L([]), _D([("a", ref), ("b", _L([ref, ref]))])), [(["b", 1], "append", _S("x"))]),
+    ]
+    out = []
+    variants = [(False, "none", True), (True, "none", False), (False, "wrap", True), (True, "plain", False), (False, "none", False)]
+    for k, (name, value, muts) in enumerate(shapes):
+        for j, (static, handler, copy) in enumerate(variants):
+            # (no in-place change: HEAD hands the replayed operation an EQUAL value whose two occurrences are distinct objects -
+            # the cassette round trip of a whole recording does not keep the identity, neighbourhood of F07c - so only what the
+            # value IS is compared, at every path: read, sent, read again, returned)
+            steps = [["load", "a", "load"], ["send", "a"], ["load", "b", "load"], ["send", "b"], ["ret", ["a", "b"]]]
+            out.append(dict(kind="shared", shape=name, cassette=["memory", "file", "s3"][(k + j) % 3], copy=copy, static=static,
+                            handler=handler, inputs={"load": value}, steps=steps, plays=1 + (k + j) % 2))
+    return out
+
+
 def canon_rec(items):
     return sorted(([k, canon_datum(d)] for k, d in items), key=lambda kd: kd[0])
 
@@ -437,7 +498,7 @@ def top_calls(trace):
 def direct(case, obs):
     if "driver_exception" in obs:
         return [("driver", obs["driver_exception"] + obs.get("trace", "")[-400:])]
-    if case.get("kind") == "mutation":
+    if case.get("kind") in ("mutation", "shared"):
         return direct_mutation(case, obs)
     fails = []
     rec_obs = [ob for run, ob in zip(case["runs"], obs["runs"]) if run["kind"] == "record"]
@@ -489,29 +550,32 @@ def direct_mutation(case, obs):
     recording, no body runs, and the playback outputs equal the recorded outputs (operation result included)."""
     what = "%s (%s input, handler %s, %s cassette%s)" % (
         case["shape"], "static" if case.get("static") else "instance", case.get("handler"), case["cassette"],
-        ", sampling rate 0 with sampling enforced by the operation" if case.get("rate") == 0 else "")
+        ", sampling rate 0 with sampling enforced by the operation" if case.get("rate") == 0 else "") + \
+        ("; one list / dict is reachable twice inside the value" if case.get("kind") == "shared" else "")
     if obs["outcome"]["o"] != "val" or not obs["saved"]:
         return [("probe-not-recorded", "%s: the record run ended with %s, saved=%s" % (what, obs["outcome"], obs["saved"]))]
     if not obs["fetch_ok"]:
         return [("probe-fetch-differs", "%s: the cassette does not hand back what was saved" % what)]
     fails = []
+    pre = "shared-value" if case.get("kind") == "shared" else "mutated-input"
     for i, ob in enumerate(obs["plays"]):
         if ob["outcome"] != {"o": "val", "v": {"t": "none"}}:
-            fails.append(("mutated-input-replay-failed", "%s, replay %d: play() on the unchanged operation ended with %s" %
+            fails.append((pre + "-replay-failed", "%s, replay %d: play() on the unchanged operation ended with %s" %
                           (what, i, ob["outcome"])))
             continue
         if ob["handed"] != obs["handed"]:
             k = next((j for j, (x, y) in enumerate(zip(obs["handed"], ob["handed"])) if x != y),
                      min(len(obs["handed"]), len(ob["handed"])))
-            fails.append(("mutated-input-interception-outcome-differs", "%s, replay %d: input call #%d returned %s while recording "
+            fails.append((pre + "-interception-outcome-differs", "%s, replay %d: input call #%d returned %s while recording "
                           "and %s in the replay (the operation changed the returned container in place after the capture; "
-                          "copy-on-interception is on)" % (what, i, k, obs["handed"][k:k + 1], ob["handed"][k:k + 1])))
+                          "copy-on-interception is %s)" % (what, i, k, obs["handed"][k:k + 1], ob["handed"][k:k + 1],
+                                                             "on" if case.get("copy", True) else "off")))
         if ob["bodies_run"]:
             fails.append(("body-executed-during-replay", "%s, replay %d: %s" % (what, i, ob["bodies_run"])))
         if canon_rec(ob["pbouts"]) != canon_rec(ob["recouts"]):
             pk, rk = dict(canon_rec(ob["pbouts"])), dict(canon_rec(ob["recouts"]))
             diff = sorted(k for k in set(pk) | set(rk) if pk.get(k) != rk.get(k))
-            fails.append(("mutated-input-outputs-differ", "%s, replay %d: playback outputs and recorded outputs differ at %s: "
+            fails.append((pre + "-outputs-differ", "%s, replay %d: playback outputs and recorded outputs differ at %s: "
                           "recorded %s, replayed %s" % (what, i, diff[:3], str(rk.get(diff[0]))[:300], str(pk.get(diff[0]))[:300])))
     return fails
 
@@ -521,18 +585,20 @@ _h_to_gallina, _h_explain, _h_features, _h_nontrivial, _h_shrink = to_gallina, e
 
 
 def to_gallina(case, obs):  # noqa: F811
-    return None if case.get("kind") == "mutation" else _h_to_gallina(case, obs)
+    return None if case.get("kind") in ("mutation", "shared") else _h_to_gallina(case, obs)
 
 
 def explain(case, obs):  # noqa: F811
-    return "tt" if case.get("kind") == "mutation" else _h_explain(case, obs)
+    return "tt" if case.get("kind") in ("mutation", "shared") else _h_explain(case, obs)
 
 
 def features(case):  # noqa: F811
-    if case.get("kind") != "mutation":
+    if case.get("kind") not in ("mutation", "shared"):
         fs = _h_features(case)
         if case.get("kind") == "xproc":
             fs |= {"recorded-and-replayed-by-different-processes", "hash-seeds:" + ",".join(sg["hashseed"] for sg in case["segments"])}
+            if case.get("bulk"):
+                fs.add("in:captured-arguments-of-several-KB")
         for r in case["runs"]:
             if r["kind"] == "record":
                 caps = [len([c for c in n["cfg"]["cap"] if c[0] is not None and c[1]]) for n in rd.walk(r["op"]["body"])
@@ -544,7 +610,8 @@ def features(case):  # noqa: F811
                        any(m is not n and m["cfg"]["alias"] in n["cfg"]["fallbacks"]["l"] for m in ins) for n in ins):
                     fs.add("in:fallback-alias-also-recorded-by-another-input")
         return fs
-    return {"probe:mutated-after-capture", "probe-shape:" + case["shape"], "probe-handler:%s" % case.get("handler"),
+    return {"probe:mutated-after-capture" if case["kind"] == "mutation" else "probe:value-with-internal-sharing",
+            "copy-on-interception=%s" % bool(case.get("copy", True)), "probe-shape:" + case["shape"], "probe-handler:%s" % case.get("handler"),
             "probe-input:" + ("static" if case.get("static") else "instance"), "cassette:" + case["cassette"],
             "probe-inputs:%d" % len(case["inputs"]), "copy-on-interception",
             "probe-sampling:" + ("rate-0-enforced" if case.get("rate") == 0 else "default")} | \
@@ -552,11 +619,11 @@ def features(case):  # noqa: F811
 
 
 def nontrivial(case):  # noqa: F811
-    return True if case.get("kind") == "mutation" else _h_nontrivial(case)
+    return True if case.get("kind") in ("mutation", "shared") else _h_nontrivial(case)
 
 
 def shrink_candidates(case):  # noqa: F811
-    if case.get("kind") == "mutation":
+    if case.get("kind") in ("mutation", "shared"):
         st = case["steps"]
         return [dict(case, steps=st[:i] + st[i + 1:]) for i in range(len(st)) if st[i][0] in ("mut", "send")] + \
             ([dict(case, plays=1)] if case.get("plays", 1) > 1 else [])
